@@ -25,7 +25,7 @@ type c13Case struct {
 	WC     bool
 	Sess   B
 	SessC  string
-	Alter  string // "", "cA+1", "cA-rand", "cA-add", "cA-mult2", "cB+1", "cB-rand", "cB-add", "cB-mult2", "wrong-B", "swap-c"
+	Alter  string // "", "cA+1", "cA-rand", "cA-add", "cA-mult2", "cA-neg", "cA+N2", "cB+1", "cB-rand", "cB-add", "cB-mult2", "cB-neg", "cB+N2", "wrong-B", "swap-c"
 	Delta  H
 }
 
@@ -40,7 +40,7 @@ func genC13(t *rapid.T) c13Case {
 	}
 	c.A, c.AC, c.B, c.BC = hx(a), ac, hx(b), bc
 	c.Sess, c.SessC = genSession(t)
-	c.Alter = rapid.SampledFrom([]string{"", "", "", "", "cA+1", "cA-rand", "cA-add", "cA-mult2", "cB+1", "cB-rand", "cB-add", "cB-mult2", "wrong-B", "wrong-B-adaptive", "wrong-B-mirrored", "swap-c"}).Draw(t, "alter")
+	c.Alter = rapid.SampledFrom([]string{"", "", "", "", "cA+1", "cA-rand", "cA-add", "cA-mult2", "cA-neg", "cA+N2", "cB+1", "cB-rand", "cB-add", "cB-mult2", "cB-neg", "cB+N2", "wrong-B", "wrong-B-adaptive", "wrong-B-mirrored", "swap-c"}).Draw(t, "alter")
 	c.Delta = hx(add(drawBigBits(t, "delta", 200), 1))
 	return c
 }
@@ -87,6 +87,10 @@ func runC13(c c13Case) (out ev.Outcome) {
 		case "-mult2":
 			r, _ := pkA.HomoMult(big.NewInt(2), ct)
 			return r
+		case "-neg": // the same magnitude with a minus sign (lost by any copy through Bytes())
+			return new(big.Int).Neg(ct)
+		case "+N2": // congruent modulo N^2, not canonical (deliverable: wire values are byte strings of any length)
+			return new(big.Int).Add(ct, mul(N2, big.NewInt(int64(1+len(c.Alter)%3))))
 		}
 		return ct
 	}
